@@ -54,12 +54,14 @@ ColLists(nf, tg, e) ==
     ELSE IF tg THEN Orderings(1..nf)
     ELSE {cs \in Orderings(1..3) : Len(cs) <= nf}
 
-StructCase(nf, tg, e, ps, d, cs, n, nl, st) ==
-  [prim |-> FALSE, nf |-> nf, tagged |-> tg, emb |-> e, ptrs |-> ps, dest |-> d,
+\* nf counts the LEAF fields (an embedded struct is flattened); the last embn of them live inside
+\* the embedded struct (embn = 0 iff emb = "none"), so the struct has nf - embn + 1 top-level fields
+StructCase(nf, tg, e, en, ps, d, cs, n, nl, st) ==
+  [prim |-> FALSE, nf |-> nf, tagged |-> tg, emb |-> e, embn |-> en, ptrs |-> ps, dest |-> d,
    cols |-> cs, nrows |-> n, null |-> nl, strict |-> st]
 
 PrimCase(d, cid, n, nl, st) ==
-  [prim |-> TRUE, nf |-> 1, tagged |-> FALSE, emb |-> "none", ptrs |-> {}, dest |-> d,
+  [prim |-> TRUE, nf |-> 1, tagged |-> FALSE, emb |-> "none", embn |-> 0, ptrs |-> {}, dest |-> d,
    cols |-> <<cid>>, nrows |-> n, null |-> nl, strict |-> st]
 
 (* ---------------------------------------------------------------- the mapping *)
@@ -107,7 +109,7 @@ Allowed(c) ==
 RowData(c) == [r \in 1..c.nrows |-> [j \in 1..Len(c.cols) |-> At(c, r, j)]]
 
 Observation(c) ==
-  [op |-> "query", prim |-> c.prim, nf |-> c.nf, tagged |-> c.tagged, emb |-> c.emb, ptrs |-> c.ptrs,
+  [op |-> "query", prim |-> c.prim, nf |-> c.nf, tagged |-> c.tagged, emb |-> c.emb, embn |-> c.embn, ptrs |-> c.ptrs,
    dest |-> c.dest, cols |-> c.cols, data |-> RowData(c), strict |-> c.strict,
    allow |-> Allowed(c)]
 
@@ -125,11 +127,12 @@ PickShape ==
   /\ out' = [op |-> "shape"]
   /\ \/ \E nf \in 1..MaxF, tg \in BOOLEAN, e \in {"none", "val", "ptr"}, d \in Dests, st \in BOOLEAN, n \in RowCounts :
            /\ (e # "none" => nf >= 2)
-           /\ \E ps \in PtrChoices(nf) :
-                 shape' = [prim |-> FALSE, nf |-> nf, tagged |-> tg, emb |-> e, ptrs |-> ps, dest |-> d,
-                           nrows |-> n, strict |-> st]
+           /\ \E ps \in PtrChoices(nf), en \in 0..2 :
+                 /\ (e = "none" <=> en = 0) /\ en <= nf
+                 /\ shape' = [prim |-> FALSE, nf |-> nf, tagged |-> tg, emb |-> e, embn |-> en, ptrs |-> ps,
+                              dest |-> d, nrows |-> n, strict |-> st]
      \/ \E d \in Dests, n \in RowCounts, st \in BOOLEAN :
-           shape' = [prim |-> TRUE, nf |-> 1, tagged |-> FALSE, emb |-> "none", ptrs |-> {}, dest |-> d,
+           shape' = [prim |-> TRUE, nf |-> 1, tagged |-> FALSE, emb |-> "none", embn |-> 0, ptrs |-> {}, dest |-> d,
                      nrows |-> n, strict |-> st]
 
 PickResult ==
@@ -141,7 +144,7 @@ PickResult ==
               out' = Observation(PrimCase(shape.dest, cid, shape.nrows, nl, shape.strict))
        ELSE \E cs \in ColLists(shape.nf, shape.tagged, shape.emb) :
               \E nl \in 0..(IF shape.nrows = 0 THEN 0 ELSE Len(cs)) :
-                 out' = Observation(StructCase(shape.nf, shape.tagged, shape.emb, shape.ptrs, shape.dest,
+                 out' = Observation(StructCase(shape.nf, shape.tagged, shape.emb, shape.embn, shape.ptrs, shape.dest,
                                                cs, shape.nrows, nl, shape.strict))
 
 Next == PickShape \/ PickResult
@@ -150,7 +153,7 @@ Spec == Init /\ [][Next]_vars
 
 (* ---------------------------------------------------------------- properties of the mapping *)
 
-Case == [prim |-> out.prim, nf |-> out.nf, tagged |-> out.tagged, emb |-> out.emb, ptrs |-> out.ptrs,
+Case == [prim |-> out.prim, nf |-> out.nf, tagged |-> out.tagged, emb |-> out.emb, embn |-> out.embn, ptrs |-> out.ptrs,
          dest |-> out.dest, cols |-> out.cols, nrows |-> Len(out.data),
          null |-> (IF \E j \in 1..Len(out.cols) : Len(out.data) > 0 /\ out.data[1][j] = 0
                    THEN CHOOSE j \in 1..Len(out.cols) : out.data[1][j] = 0 ELSE 0),
@@ -181,6 +184,13 @@ ExtraIgnored ==
 StrictNeverPartial ==
   picked /\ out.strict /\ ~out.prim /\ Len(out.cols) < out.nf /\ Len(out.data) > 0
      => \A o \in out.allow : o.k \in {"error", "notfound"}
+
+\* ... in particular when the missing columns belong to leaf fields of an embedded struct: the
+\* count that matters is the flattened one, not the number of top-level fields
+StrictCountsLeafFields ==
+  picked /\ out.strict /\ ~out.prim /\ out.emb # "none" /\ Len(out.data) > 0
+         /\ Len(out.cols) >= out.nf - out.embn + 1 /\ Len(out.cols) < out.nf
+     => out.allow = {ErrorOut}
 
 EmptyIsNotFound ==
   picked /\ out.dest = "one" /\ Len(out.data) = 0 => out.allow = {NotFoundOut}
